@@ -1,9 +1,13 @@
 /-
 C09, service layer — theorems about the model of match/publish handler wiring (Kap/Model/C09Svc.lean).
-The global delivery semantics of the service layer is tied to the code by correspondence; what is PROVED
-here are the local laws every delivery obeys, for every configuration, event and fuel.
+PROVED here: the local laws every delivery obeys, for every configuration, event and fuel, and (second half
+of the file) the GLOBAL law: for every history in which every topic has a single way in and publish edges only go
+forward in a fixed order, what each recorder has received is exactly the declarative chain semantics of
+Kap/Spec/C09Svc.lean (`svc_delivery_is_chain_semantics`), the fuel is adequate (`fuel_adequate`,
+`deliver_never_overflows`) and the executable pull is the declarative chain (`pull_iff_chain`).
 -/
 import Kap.Model.C09Svc
+import Kap.Proofs.C09SvcHist
 namespace Kap.Props.C09Svc
 open Kap.C09 Kap.C09.Svc
 
@@ -142,5 +146,113 @@ theorem no_match_no_publish (f : St → String → St) (ev' : SEv) (sp : Spec) (
 example : (M.or (.tagEq "dc" "x") (.levelGe 1)).eval { id := "a", level := 3, time := 0, prev := 0, tags := [("host", "a")] } = none
     ∧ (M.or (.tagEq "dc" "x") (.levelGe 1)).eval { id := "a", level := 3, time := 0, prev := 0, tags := [("dc", "y")] } = some true := by
   decide
+
+/-! ## The global law -/
+
+open Kap.C09.SvcSpec Kap.C09.SvcProofs
+
+/-- every topic has a single way in, after every operation of the history (what the driver checks) -/
+def SingleEntryAlways (ops : List Svc.Op) : Prop :=
+  ∀ k, k ≤ ops.length → singleEntry (Svc.run (ops.take k)) (Svc.directs (ops.take k)) = true
+
+/-- publish edges only go to topics later in `order`, after every operation of the history -/
+def ForwardAlways (order : List String) (ops : List Svc.Op) : Prop :=
+  ∀ k, k ≤ ops.length → forwardOnly order (Svc.run (ops.take k)).specs = true
+
+theorem inv_of_history (order : List String) (ops : List Svc.Op) (h1 : SingleEntryAlways ops)
+    (h2 : ForwardAlways order ops) : Inv ops.reverse (Svc.run ops) := by
+  have := inv_run order ops.reverse
+    (by intro k hk; rw [List.reverse_reverse]; exact h1 k (by simpa using hk))
+    (by intro k hk; rw [List.reverse_reverse]; exact h2 k (by simpa using hk))
+  rwa [List.reverse_reverse] at this
+
+/-- **Service-layer delivery is the chain semantics, for every history.** Whatever handler specs are
+registered, updated and removed, whatever recorders are added and whatever is collected: as long as every
+topic has a single way in and publish edges go forward, recorder `name` has received for topic `X` exactly
+what the declarative specification says — for each collect since its registration, in order, the event iff a
+chain of registered specs with holding match expressions leads from the collected topic to `X`, with the
+previous level the specification prescribes; nothing else, nothing twice. -/
+theorem svc_delivery_is_chain_semantics (order : List String) (ops : List Svc.Op)
+    (h1 : SingleEntryAlways ops) (h2 : ForwardAlways order ops) (name X : String) :
+    (Svc.run ops).received name X = SvcSpec.received ops name X :=
+  (inv_of_history order ops h1 h2).recv name X
+
+/-- the model's per-topic event states are the specification's last arrivals (the previous level a topic
+reports is the level of the id's last arrival there) -/
+theorem svc_states_are_last_arrivals (order : List String) (ops : List Svc.Op)
+    (h1 : SingleEntryAlways ops) (h2 : ForwardAlways order ops) (Y id : String) :
+    (((Svc.run ops).cur Y).find? (fun x => x.id == id)).map (·.level) = lastLevel (SvcSpec.arrivals ops Y) id :=
+  (inv_of_history order ops h1 h2).last Y id
+
+/-- **Fuel adequacy along histories**: the propagation never runs out of fuel. -/
+theorem fuel_adequate (order : List String) (ops : List Svc.Op)
+    (h1 : SingleEntryAlways ops) (h2 : ForwardAlways order ops) : (Svc.run ops).overflow = false :=
+  (inv_of_history order ops h1 h2).ovf
+
+theorem deliver_no_overflow_aux {rank : String → Nat} (specs : List Spec)
+    (hf : ∀ sp ∈ specs, ∀ t ∈ sp.targets, rank sp.topic < rank t) :
+    ∀ (n : Nat) (s : St) (T : String) (e : SEv), s.specs = specs → cntGe rank specs (rank T) + 1 ≤ n →
+      s.overflow = false → (deliver n s T e).overflow = false
+  | 0, _, _, _, _, h, _ => by omega
+  | n + 1, s, T, e, hs, hfuel, hov => by
+    unfold deliver
+    simp only
+    rw [pubFold_eq, record_specs, hs]
+    change (List.foldl (fun acc t => deliver n acc t (evAt s T e)) (record s T (evAt s T e))
+      (kids specs T (evAt s T e))).overflow = false
+    have adequate : ∀ k ∈ kids specs T (evAt s T e), cntGe rank specs (rank k) + 1 ≤ n := by
+      intro k hk
+      obtain ⟨sp, h1, h2, _, h4⟩ := mem_kids.mp hk
+      have := cntGe_step (rank := rank) h1 (hf sp h1 k h4)
+      rw [h2] at this; omega
+    have hs2 : (record s T (evAt s T e)).specs = specs := by rw [record_specs, hs]
+    have ho2 : (record s T (evAt s T e)).overflow = false := by rw [record_overflow, hov]
+    generalize record s T (evAt s T e) = s2 at hs2 ho2 ⊢
+    generalize kids specs T (evAt s T e) = ks at adequate ⊢
+    induction ks generalizing s2 with
+    | nil => exact ho2
+    | cons k ks ih =>
+      rw [List.foldl_cons]
+      apply ih
+      · rw [deliver_specs, hs2]
+      · exact deliver_no_overflow_aux specs hf n s2 k _ hs2 (adequate k List.mem_cons_self) ho2
+      · intro k' hk'; exact adequate k' (List.mem_cons_of_mem _ hk')
+
+/-- **Fuel adequacy, one collect, acyclicity alone**: when publish edges only go forward in some order,
+`fuelFor` is enough for the whole propagation — whatever the state, the topic and the event (no single-entry
+hypothesis needed: a walk cannot be deeper than the number of specs). -/
+theorem deliver_never_overflows (order : List String) (s : St) (T : String) (ev : SEv)
+    (hf : forwardOnly order s.specs = true) (ho : s.overflow = false) :
+    (deliver (fuelFor s) s T ev).overflow = false := by
+  apply deliver_no_overflow_aux (rank := order.idxOf) s.specs _ _ s T ev rfl _ ho
+  · intro sp hsp t ht
+    unfold forwardOnly at hf
+    have := List.all_eq_true.mp (List.all_eq_true.mp hf sp hsp) t ht
+    simpa using this
+  · have := cntGe_le order.idxOf s.specs (order.idxOf T); unfold fuelFor; omega
+
+/-- **The executable pull is the declarative chain**: under the two hypotheses on the configuration at the
+moment of the collect, `pull` finds the event at `X` (seen as `e`) iff a chain of registered specs with holding
+match expressions leads from the collected topic to `X`. -/
+theorem pull_iff_chain (order : List String) (specs : List Spec) (last : String → String → Option Nat)
+    (T0 : String) (e0 : SEv) (h1 : singleEntry { specs := specs } [T0] = true)
+    (h2 : forwardOnly order specs = true) (X : String) (e : SEv) :
+    pull specs last T0 e0 (specs.length + 1) X = some e ↔ Arrives specs last T0 e0 X e := by
+  have hg : Good specs order.idxOf T0 :=
+    good_of_checks (s := { specs := specs }) h1 (List.mem_singleton.mpr rfl) h2
+  constructor
+  · exact pull_arrives _ _ _
+  · intro h
+    exact arrives_pull hg h _ (by have := cntLt_le order.idxOf specs (order.idxOf X); omega)
+
+/-- at most once: a chain's end point sees the event in exactly one way (the chain semantics is a partial
+function of the topic) -/
+theorem chain_functional (order : List String) (specs : List Spec) (last : String → String → Option Nat)
+    (T0 : String) (e0 : SEv) (h1 : singleEntry { specs := specs } [T0] = true)
+    (h2 : forwardOnly order specs = true) (X : String) (e e' : SEv)
+    (a : Arrives specs last T0 e0 X e) (b : Arrives specs last T0 e0 X e') : e = e' := by
+  have p1 := (pull_iff_chain order specs last T0 e0 h1 h2 X e).mpr a
+  have p2 := (pull_iff_chain order specs last T0 e0 h1 h2 X e').mpr b
+  rw [p1] at p2; exact Option.some.inj p2
 
 end Kap.Props.C09Svc
